@@ -526,7 +526,9 @@ protected:
         SegmentData(Segment &s) : slope(s.slope), intercept(s.intercept) {}
 
         inline size_t operator()(const K &origin, const K &k) const {
-            auto pos = int64_t(slope * (k - origin)) + intercept;
+            // Saturate: far from the segment the product can exceed the range of int64_t (the conversion would be undefined)
+            auto product = slope * (k - origin);
+            auto pos = (product < Floating(int64_t(1) << 62) ? int64_t(product) : int64_t(1) << 62) + intercept;
             return pos > 0 ? size_t(pos) : 0ull;
         }
     };
